@@ -80,7 +80,7 @@ def _quiet_formatting():
     HM._format_float = lambda v: ""
 
 
-def fit_case(k, n_times, validation, opt_as_class, crit_name, stale_grad=False):
+def fit_case(k, n_times, validation, opt_as_class, crit_name, stale_grad=False, eval_before=False):
     def fn(c):
         _quiet_formatting()
         c.env["track_grad"] = True
@@ -95,6 +95,9 @@ def fit_case(k, n_times, validation, opt_as_class, crit_name, stale_grad=False):
             # the parameters already hold a gradient from an earlier backward() (gradients are not accumulated: fit must start clean)
             pre = SimStub(c, deriv, N, T, prefix="pre")
             hedger.compute_loss(deriv, n_paths=N).backward()
+        if eval_before:
+            # the hedger was left in evaluation mode by earlier use (a fit with validation, a price()): training starts in training mode
+            hedger.eval()
         sim = SimStub(c, deriv, N, T)
         init = (api.real(c, "s_init", pos=True),)
         SymSGD.default_lr = lr
@@ -224,6 +227,8 @@ def cases():
     cs.append(Case("fit/k=2/es/no-validation/class", fit_case(2, 1, False, True, "es"), encodes=enc, families=fam, timeout=120, max_paths=16, bounds="k=2, validation off"))
     cs.append(Case("fit/k=1/es/validation/stale-gradient", fit_case(1, 1, True, False, "es", stale_grad=True), encodes=enc, families=fam, timeout=120, max_paths=16,
                    bounds="k=1, parameters hold a gradient from an earlier backward() when fit starts"))
+    cs.append(Case("fit/k=1/es/no-validation/eval-mode-before", fit_case(1, 1, False, False, "es", eval_before=True), encodes=enc, families=fam, timeout=120,
+                   max_paths=16, bounds="k=1, validation off, hedger left in evaluation mode by earlier use"))
     cs.append(Case("fit/k=1/entropic/validation/instance", fit_case(1, 1, True, False, "entropic"), encodes=enc, families=fam, timeout=120, max_paths=16, bounds="k=1 entropic"))
     cs.append(Case("fit/k=3/es/validation/n_times=2/instance", fit_case(3, 2, True, False, "es"), tier="thorough", encodes=enc, families=fam, timeout=600, max_paths=16, bounds="k=3"))
     cs.append(Case("fit/k=2/entropic/validation/class", fit_case(2, 1, True, True, "entropic"), tier="thorough", encodes=enc, families=fam, timeout=600, max_paths=16, bounds="k=2 entropic"))
